@@ -17,7 +17,7 @@ CLAIMS = {
         "design": "DESIGN.md section 4 C01",
     },
     "C02": {
-        "text": "Bounded symbolic check: send()/can() on wired skeleton machines from every legal configuration with every guard outcome symbolic (true/false/raise, one independent variable per evaluated guard): the transitions that fire are exactly the reference nominees (deepest handler, first enabled, once per region, stale sources skipped), in order, each guard evaluated once per pass; an event with no nominee changes nothing; can() agrees and changes nothing.",
+        "text": "Bounded symbolic check: send()/can() on wired skeleton machines from every legal configuration with every guard outcome symbolic (true/false/raise, one independent variable per evaluated guard): the transitions that fire are exactly the reference nominees (deepest handler, first enabled, once per region, stale sources skipped), in order, each guard evaluated once per pass; an event with no nominee changes nothing; can() agrees and changes nothing. Events E5 (an empty - targetless, actionless - guarded candidate on every leaf shadows the ancestors' fallback and is reported by can()) and E6 (guards spelled with the v4 key cond); the declared candidate lists of the config are compared with the parsed machine before any run.",
         "note": "Trusts CrossHair/z3, the reference selection in harness/c02.py, the stubs. Machines: curated skeletons wired with a fixed 5-event alphabet (E0..E3,U) + generated small trees; guards assumed pure. Outside: descriptor matching (C20), guards with side effects, machines beyond the family.",
         "design": "DESIGN.md section 4 C02",
     },
@@ -37,8 +37,8 @@ CLAIMS = {
         "design": "DESIGN.md section 4 C13",
     },
     "C05": {
-        "text": "Bounded symbolic check: a feature machine (hierarchy, parallel, history incl. history targets from inside the parent, guards, assign/raise/choose/pure/enqueueActions, always, onDone, sync service, final output) is run on SyncInterpreter, on Interpreter (virtual-time loop, observed at quiescence) and through initial_transition/transition with the same symbolic events and guard outcomes; after every event configuration, context, status, output and the ordered action/marker traces with their triggering events are equal; one-step variant from every non-final configuration x recorded history; the pure functions run no user code and leave machine and snapshot unchanged; one transition with symbolic source/target/reenter from every reachable pre-state of skeletons with parallel states and history yields the same configuration and the same ordered markers (with event and payload) on both engines; on skeletons with ambiguous keys every resolvable target spelling (symbolic string) leads both engines to the same configuration.",
-        "note": "Trusts CrossHair/z3 and the virtual-time loop. One machine (FM, and FM without service for the pure API: the pure probe suppresses services by design); sequences of 2 (quick) / 3 events + the one-step variant. The synthetic init event handed to entry actions during start() is not compared (there is no triggering event).",
+        "text": "Bounded symbolic check: a feature machine (hierarchy, parallel, history incl. history targets from inside the parent, guards, assign/raise/choose/pure/enqueueActions, always, onDone, sync service, final output) is run on SyncInterpreter, on Interpreter (virtual-time loop, observed at quiescence) and through initial_transition/transition with the same symbolic events and guard outcomes; after every event configuration, context, status, output and the ordered action/marker traces with their triggering events are equal; one-step variant from every non-final configuration x recorded history; the pure functions run no user code and leave machine and snapshot unchanged; one transition with symbolic source/target/reenter from every reachable pre-state of skeletons with parallel states and history yields the same configuration and the same ordered markers (with event and payload) on both engines; on skeletons with ambiguous keys every resolvable target spelling (symbolic string) leads both engines to the same configuration. cut_agree: where the maxIterations bound cuts a self-feeding chain (always, done.state, parallel always, four raise chains; maxIterations, natural length and trigger symbolic) both engines stop at the same place with the same context.",
+        "note": "Trusts CrossHair/z3 and the virtual-time loop. One machine (FM, and FM without service for the pure API: the pure probe suppresses services by design); sequences of 2 (quick) / 3 events + the one-step variant. The synthetic init event handed to entry actions during start() is not compared (there is no triggering event). Known finding C05-start-raise-chain-cut-differs (raise chains started by start() are cut one link later by the asyncio engine). done.invoke chains are outside cut_agree.",
         "design": "DESIGN.md section 4 C05",
     },
     "C12": {
@@ -62,12 +62,12 @@ CLAIMS = {
         "design": "DESIGN.md section 4 C08",
     },
     "C09": {
-        "text": "Bounded symbolic check under a virtual clock: an invoke machine (compound invoking state, declared input, onDone/onError, leave / re-enter / deep re-entry / slow action / stop) with symbolic service completion time and outcome and two stimuli at symbolic instants: each entry starts the service exactly once with the declared input; a completion of the current activation is processed exactly once with data = return value / exception; a completion of an exited activation - even after re-entry - drives nothing; at quiescence and after stop() no service task is alive; a failing service without onError puts the interpreter into status error with the exception recorded; invoking a child machine starts one child per activation, fires onDone when it finishes and stops/unregisters it on exit/stop. Both engines (sync services complete at once).",
-        "note": "Trusts CrossHair/z3 (floats as reals) and the virtual-time stubs. One machine family (IM, IM2, IM3); the service awaits only asyncio.sleep, so cancellation lands at that await; the sync engine's machine-invoke uses a polling runner thread (time.sleep) which the virtual threads cannot model and is skipped.",
+        "text": "Bounded symbolic check under a virtual clock: an invoke machine (compound invoking state, declared input, onDone/onError, leave / re-enter / deep re-entry / slow action / stop) with symbolic service completion time and outcome and two stimuli at symbolic instants: each entry starts the service exactly once with the declared input; a completion of the current activation is processed exactly once with data = return value / exception; a completion of an exited activation - even after re-entry - drives nothing; at quiescence and after stop() no service task is alive; a failing service without onError puts the interpreter into status error with the exception recorded; invoking a child machine starts one child per activation, fires onDone when it finishes and stops/unregisters it on exit/stop. Both engines (sync services complete at once). multi_invoke: a machine with a list of invokes on one state, invokes in two parallel regions and on their parent, a source shared by two states, an id-less invoke and a handler that leaves its state while a sibling invocation is running; invoke_schedule additionally with the service registered as callable object / plain-def wrapper / functools.partial.",
+        "note": "Trusts CrossHair/z3 (floats as reals) and the virtual-time stubs. One machine family (IM, IM2, IM3); the service awaits only asyncio.sleep, so cancellation lands at that await; the sync engine's machine-invoke uses a polling runner thread (time.sleep) which the virtual threads cannot model and is skipped. multi_invoke: completion time and outcome of one service and one stimulus instant are symbolic, the others fixed per item.",
         "design": "DESIGN.md section 4 C09",
     },
     "C14": {
-        "text": "Bounded symbolic check under a virtual clock: symbolic sequences of lifecycle operations (start, send of 5 event kinds, stop, snapshot->restore, advance time) on a lifecycle machine with an after timer, a delayed self-send, an invoked service, a failing service and a spawned child that owns a heartbeat timer: status only moves along the lifecycle automaton; start() idempotent while running/done/error, raises on a stopped interpreter, resumes a restored one; send() outside 'running' changes and queues nothing; stop() idempotent in every status - also with an event still queued (unsettled send right before stop) - and afterwards no timer/service/delayed-send task or thread, no registry entry and no running descendant actor remains and 100 ms of virtual time produce no activity. Both engines.",
+        "text": "Bounded symbolic check under a virtual clock: symbolic sequences of lifecycle operations (start, send of 5 event kinds, stop, snapshot->restore, advance time) on a lifecycle machine with an after timer, a delayed self-send, an invoked service, a failing service and a spawned child that owns a heartbeat timer: status only moves along the lifecycle automaton; start() idempotent while running/done/error, raises on a stopped interpreter, resumes a restored one; send() outside 'running' changes and queues nothing; stop() idempotent in every status - also with an event still queued (unsettled send right before stop) - and afterwards no timer/service/delayed-send task or thread, no registry entry and no running descendant actor remains and 100 ms of virtual time produce no activity. Both engines. Operation HALF: a transition that aborts after its first parallel region armed a timer; stop() must release it.",
         "note": "Trusts CrossHair/z3 and the virtual-time stubs; census = asyncio tasks of the virtual loop / pending virtual threads / interpreter registries, not OS threads. Sequences of 3-4 (quick) or 3-5 (thorough) operations; operations are sequential (no stop() from another thread mid-macrostep).",
         "design": "DESIGN.md section 4 C14",
     },
@@ -77,7 +77,7 @@ CLAIMS = {
         "design": "DESIGN.md section 4 C10",
     },
     "C11": {
-        "text": "Bounded symbolic check: a history-targeting transition taken from outside the history node's parent, from every publicly reachable (configuration, recorded history) pair (never visited where reachable / any last sub-configuration), optionally through a snapshot round trip, on both engines, activates exactly the reference sub-configuration (shallow: recorded child + default descent; deep: recorded leaves; unvisited: default target else normal entry) and enters each restored state exactly once.",
+        "text": "Bounded symbolic check: a history-targeting transition taken from outside the history node's parent, from every publicly reachable (configuration, recorded history) pair (never visited where reachable / any last sub-configuration), optionally through a snapshot round trip, on both engines, activates exactly the reference sub-configuration (shallow: recorded child + default descent; deep: recorded leaves; unvisited: default target else normal entry) and enters each restored state exactly once. Skeleton CUR17 adds never-visited history states whose default targets are spelled dot-relative, dotted and absolute next to same-named states one level up.",
         "note": "Trusts CrossHair/z3, model.history_ref/complete_config, the native reachability exploration that supplies the pre-states (it runs the real _record_history). Skeletons: curated CUR4/5/9/12/13 + generated trees with history nodes. History targets taken while the parent is active are excluded (statement leaves them open).",
         "design": "DESIGN.md section 4 C11",
     },
@@ -92,13 +92,13 @@ CLAIMS = {
         "design": "DESIGN.md section 4 C15",
     },
     "C16": {
-        "text": "Bounded symbolic check: the determinism machine DT (3-region parallel state whose regions all have children named idle/busy, a nested compound, deep and shallow history of the parallel state, re-entry, region-local and broadcast events, context updates) is run on a symbolic event sequence under a symbolic hash layout - the hash values of a group of K StateNodes are permuted by a symbolic Lehmer code, which permutes the iteration order of every set[StateNode] the engine holds - on both engines; the full trace (ordered entry/exit/transition actions with event types, configuration and context after every event) must equal the identity-layout sync trace, so neither layout nor engine is observable. In addition the machine is run in child processes under a solver-chosen PYTHONHASHSEED (1..16 quick / 1..64 thorough) with natural address hashing on both engines and the pure transition() API: traces equal across seeds and across the three APIs.",
+        "text": "Bounded symbolic check: the determinism machine DT (3-region parallel state whose regions all have children named idle/busy, a nested compound, deep and shallow history of the parallel state, re-entry, region-local and broadcast events, context updates) is run on a symbolic event sequence under a symbolic hash layout - the hash values of a group of K StateNodes are permuted by a symbolic Lehmer code, which permutes the iteration order of every set[StateNode] the engine holds - on both engines; the full trace (ordered entry/exit/transition actions with event types, configuration and context after every event) must equal the identity-layout sync trace, so neither layout nor engine is observable. In addition the machine is run in child processes under a solver-chosen PYTHONHASHSEED (1..16 quick / 1..64 thorough) with natural address hashing on both engines and the pure transition() API: traces equal across seeds and across the three APIs. run_isolation: two consecutive in-process runs of a machine whose context comes from a factory sharing mutable values between calls (5 context forms, symbolic engines and events) yield equal traces.",
         "note": "Trusts CrossHair/z3 and the hash-pinning stub (vf/env.py): distinct small ints below the table size make CPython's set iteration ascending in hash, so a permutation of the ints is a permutation of iteration order; address-based hashing of a real run is one such layout. One machine (15 nodes), sequences of 3 (quick) / 4 events, groups of K=4 (quick) / 4-5 nodes permuted at a time. The PYTHONHASHSEED part is a sample of seed values run natively (a process boundary cannot be traced). Generated-id independence is outside.",
         "design": "DESIGN.md section 4 C16",
     },
     "C17": {
-        "text": "Bounded symbolic check of the whole generator: the solver chooses the features that assemble a machine JSON (C19 description family x guard form out of 9 x invoke form out of 6 x parameterised actions x an unsupported key at 3 depths x 8 hostile names at 5 positions), the template (all five), async mode and file count; for each choice the real CLI main() runs in-process on a scratch directory. Exit != 0 implies nothing written; exit 0 implies valid Python that imports without output, without executing any JSON string (injection canary) and, for the pythonic templates, builds a machine whose deep fingerprint (guards with full structure and params, actions with params, invoke id/src/input/handlers, delays, tags, meta, context, resolved targets) and 5 traces equal create_machine(json); for the JSON-loading templates the generated logic binds every referenced name; an unrepresentable key is refused; regeneration is byte-identical and --check exits 0. The same oracle (without traces) is applied to each of the 104 Stately exports shipped in tests/tests_cli/stately_machines x 5 templates x 4 modes (codegen_corpus, export index symbolic).",
-        "note": "Trusts CrossHair/z3 for the exhaustive enumeration of the choice space; the generator itself runs natively on the concrete JSON (argparse, file system and black cannot be traced) - this is the weakest use of the solver in this suite and is stated in DESIGN.md. The CLI's own verifier is not trusted. Multi-machine (parent/child) generation is outside. One known finding (JSON-loading templates cannot bind names that are not lowerCamel/snake identifiers; 46 of the 104 exports are affected).",
+        "text": "Bounded symbolic check of the whole generator: the solver chooses the features that assemble a machine JSON (C19 description family x guard form out of 9 x invoke form out of 6 x parameterised actions x an unsupported key at 3 depths x 8 hostile names at 5 positions), the template (all five), async mode and file count; for each choice the real CLI main() runs in-process on a scratch directory. Exit != 0 implies nothing written; exit 0 implies valid Python that imports without output, without executing any JSON string (injection canary) and, for the pythonic templates, builds a machine whose deep fingerprint (guards with full structure and params, actions with params, invoke id/src/input/handlers, delays, tags, meta, context, resolved targets) and 5 traces equal create_machine(json); for the JSON-loading templates the generated logic binds every referenced name; an unrepresentable key is refused; regeneration is byte-identical and --check exits 0. The same oracle (without traces) is applied to each of the 104 Stately exports shipped in tests/tests_cli/stately_machines x 5 templates x 4 modes (codegen_corpus, export index symbolic). Candidate lists mixing object and shorthand-string members; regen_hashseed: regeneration in child processes under solver-chosen PYTHONHASHSEED values (names differing only in letter case) is byte-identical and --check clean.",
+        "note": "Trusts CrossHair/z3 for the exhaustive enumeration of the choice space; the generator itself runs natively on the concrete JSON (argparse, file system and black cannot be traced) - this is the weakest use of the solver in this suite and is stated in DESIGN.md. The CLI's own verifier is not trusted. Multi-machine (parent/child) generation is outside. One known finding (JSON-loading templates cannot bind names that are not lowerCamel/snake identifiers; 46 of the 104 exports are affected). regen_hashseed samples seeds 1..4 (quick) / 1..12 (thorough) against seed 0 in child processes.",
         "design": "DESIGN.md section 4 C17",
     },
     "C19": {
